@@ -17,7 +17,8 @@ from harness import leaves as lv
 from harness.common import fhex, fparse
 
 PROPERTY = "C01"
-GROUPS = ["leaves"]
+GROUPS = ["leaves", "bij"]
+EXTRA_PROPS = ["Props/X01_bij.v"]  # inverse / log-det laws for every combinator tree (Model/Bij.v)
 MANIFEST = {
     "design_ref": "DESIGN.md 4.1",
     "technique": "Coq proofs over R of both inverse laws for every leaf formula (incl. boundary points) and for chain/invert/lift/autoregressive wiring + executed correspondence of the extracted model with the real bijections",
@@ -147,6 +148,8 @@ def run(ctx):
                 reproducer="cd /verif && ./check C01 --replay <this file>",
             )
     flows_oracle(ctx)
+    from harness import bijinv
+    bijinv.run_units(ctx)  # combinator trees: exact round trips + opposite log-dets, real flowjax vs extracted Model/Bij.v
     ctx.assumptions += ["inputs restricted to the domain (codomain) of each map and to magnitudes where the float image does not saturate",
                         "theorems are over R: float rounding is outside the model"]
 
